@@ -31,7 +31,7 @@ pub enum V {
     Enum(usize, Vec<V>),             // variant index, payload
 }
 
-const DEFS: &str = "struct S { a: u8, b: i16, c: bool }\nstruct P { x: (u8, bool), y: [i8; 2] }\nenum E { A, B(u8), C(i16, bool) }\n";
+const DEFS: &str = "struct S { a: u8, b: i16, c: bool }\nstruct P { x: (u8, bool), y: [i8; 2] }\nenum E { A, B(u8), C(i16, bool) }\nenum F { N, R(), D(u8, i16, bool), W(u64), X(S) }\n";
 
 fn struct_fields(name: &str) -> Vec<(&'static str, T)> {
     match name {
@@ -40,8 +40,17 @@ fn struct_fields(name: &str) -> Vec<(&'static str, T)> {
     }
 }
 
-fn enum_variants(_name: &str) -> Vec<(&'static str, Vec<T>)> {
+fn enum_variants(name: &str) -> Vec<(&'static str, Vec<T>)> {
+    if name == "F" {
+        // R is an EMPTY TUPLE variant `R()` (not a unit variant): it prints and parses with its parentheses
+        return vec![("N", vec![]), ("R", vec![]), ("D", vec![T::U(8, "u8"), T::I(16, "i16"), T::Bool]), ("W", vec![T::U(64, "u64")]), ("X", vec![T::Struct("S")])];
+    }
     vec![("A", vec![]), ("B", vec![T::U(8, "u8")]), ("C", vec![T::I(16, "i16"), T::Bool])]
+}
+
+/// unit variant (no parentheses) or tuple variant (possibly empty)?
+fn is_unit_variant(name: &str, k: usize) -> bool {
+    enum_variants(name)[k].1.is_empty() && !(name == "F" && k == 1)
 }
 
 fn ty_name(t: &T) -> String {
@@ -142,7 +151,7 @@ fn to_literal(t: &T, v: &V) -> Literal {
         ),
         (T::Enum(n), V::Enum(k, vs)) => {
             let (vn, ts) = &enum_variants(n)[*k];
-            let payload = if ts.is_empty() { VariantLiteral::Unit } else { VariantLiteral::Tuple(ts.iter().zip(vs).map(|(t, x)| to_literal(t, x)).collect()) };
+            let payload = if is_unit_variant(n, *k) { VariantLiteral::Unit } else { VariantLiteral::Tuple(ts.iter().zip(vs).map(|(t, x)| to_literal(t, x)).collect()) };
             Literal::Enum(n.to_string(), vn.to_string(), payload)
         }
         _ => panic!("value does not match type"),
@@ -206,6 +215,9 @@ pub fn types() -> Vec<T> {
         T::Struct("S"),
         T::Struct("P"),
         T::Enum("E"),
+        T::Enum("F"),
+        T::Array(Box::new(T::Enum("F")), 3),
+        T::Tuple(vec![T::Enum("F"), T::Bool, T::Enum("E")]),
         T::Array(Box::new(T::Enum("E")), 2),
         T::Tuple(vec![T::Struct("S"), T::Enum("E")]),
     ]
